@@ -69,7 +69,7 @@ CHECKS = {
             "(not blocked, outcome as the model says, every pixel written, no ibkg_/irms_ segment left, byte-identical maps across schedules "
             "and worker counts of one layout, <= 0.5 sigma change between stripe counts) are decided by TLC (BaneRun_Trace). Fault enumeration: "
             "one injected exception per (stripe, phase).",
-            "Linux fork start method; hook events totally ordered by a flock'ed counter; a run still unfinished after 45 s (normal < 2 s) counts "
+            "Linux fork start method; hook events totally ordered by a flock'ed counter; a run still unfinished after 150 s (normal < 2 s) counts "
             "as blocked; worker death by signal is not injected; interpreter shutdown after the call is outside the property.",
             "TLA+ model of pool+barrier+shared memory model-checked with TLC (safety, liveness, single-fault enumeration) + forced replay of TLC schedules through gate hooks + TLC trace validation of hook events",
             "4/C07"),
